@@ -402,6 +402,7 @@ func c09runJob(j c09job) (res c09res) {
 	if j.Kind != "expired" {
 		// wait for the park, the end of the program, or a standstill (everything blocked)
 		tick := time.NewTicker(5 * time.Millisecond)
+		tw := time.Now()
 	wait:
 		for {
 			select {
@@ -414,6 +415,10 @@ func c09runJob(j c09job) (res c09res) {
 				r.mu.Lock()
 				n := r.n
 				r.mu.Unlock()
+				if time.Since(tw) > 10*time.Second { // neither k operations nor a standstill: cancel wherever it is
+					res.Stalled = true
+					break wait
+				}
 				if n > 0 && time.Since(time.Unix(0, atomic.LoadInt64(&r.lastMove))) > c09StallQuiet {
 					select {
 					case er = <-errc: // nothing moves because the program has ended
@@ -725,10 +730,11 @@ func c09ticksBody(ids []int) (goSrc, coq string) {
 
 func c09templates(r *rng, thorough bool) []c09tmpl {
 	var ts []c09tmpl
-	kS := 60
-	kC := 70
+	kS := 150
+	kC := 120
+	kB := 40 // cancellation points of the blocking-construct grid
 	if thorough {
-		kS, kC = 300, 300
+		kS, kC, kB = 400, 400, 60
 	}
 	mainOnly := "[PRoot 0; PFun 1]"
 	// ---- single-threaded, main stream
@@ -745,7 +751,7 @@ func c09templates(r *rng, thorough bool) []c09tmpl {
 		for n := 1; n <= depth; n++ {
 			fs = append(fs, fmt.Sprintf("[Nop; Tick %d; Nop; Call %d; Nop; Tick %d; Ret]", n, 2+n-1, 100+n))
 		}
-		ts = append(ts, c09tmpl{Name: "recursion", Class: "single", Kind: "park", KMax: kS + 40, Infinite: true,
+		ts = append(ts, c09tmpl{Name: "recursion", Class: "single", Kind: "park", KMax: kS + 60, Infinite: true,
 			Src:     fmt.Sprintf("package main\n\nimport \"host\"\n\nfunc rec(n int) {\n\tif n == 0 {\n\t\treturn\n\t}\n\thost.Tick(n)\n\trec(n - 1)\n\thost.Tick(100 + n)\n}\n\nfunc main() {\n\tfor {\n\t\trec(%d)\n\t}\n}\n", depth),
 			CoqF:    "[ " + strings.Join(fs, "; ") + " ]",
 			CoqScen: c09park("[]", 0, mainOnly, false, "[]", "[0]")})
@@ -816,7 +822,8 @@ func c09templates(r *rng, thorough bool) []c09tmpl {
 
 	// ---- concurrent, main stream
 	conc := func(name string, threads, kmax int, infinite bool, body string) {
-		ts = append(ts, c09tmpl{Name: name, Class: "conc", Kind: "park", Threads: threads, KMax: kmax, Stall: true, Infinite: infinite,
+		// the standstill point only where the program can come to one (kmax == 0)
+		ts = append(ts, c09tmpl{Name: name, Class: "conc", Kind: "park", Threads: threads, KMax: kmax, Stall: kmax == 0, Infinite: infinite,
 			Src: c09hdrSrc(body) + body})
 	}
 	conc("goroutine-tree", 7, kC, true, `func leaf(id int) {
@@ -867,7 +874,7 @@ func main() {
 }
 `, buf))
 	nw := 2 + r.intn(3)
-	conc("worker-pool", nw+1, kC+60, false, fmt.Sprintf(`func worker(id int, jobs <-chan int, res chan<- int, wg *sync.WaitGroup) {
+	conc("worker-pool", nw+1, kC+50, false, fmt.Sprintf(`func worker(id int, jobs <-chan int, res chan<- int, wg *sync.WaitGroup) {
 	for j := range jobs {
 		host.Tick(id)
 		res <- j * 2
@@ -896,7 +903,7 @@ func main() {
 	host.Tick(s %% 7)
 }
 `, nw))
-	conc("mutex-counter", 4, kC+60, false, `func inc(mu *sync.Mutex, c *int, n int, done chan bool) {
+	conc("mutex-counter", 4, kC+50, false, `func inc(mu *sync.Mutex, c *int, n int, done chan bool) {
 	for i := 0; i < n; i++ {
 		mu.Lock()
 		*c = *c + 1
@@ -973,7 +980,7 @@ func main() {
 }
 `)
 	// region "literal-slot": go func(){...}() in a loop; the slot of the literal is reset when calls return
-	ts = append(ts, c09tmpl{Name: "goroutine-literals", Class: "conc", Region: "literal-slot", Kind: "park", Threads: 4, KMax: 30, Stall: true, Infinite: true,
+	ts = append(ts, c09tmpl{Name: "goroutine-literals", Class: "conc", Region: "literal-slot", Kind: "park", Threads: 4, KMax: 30, Infinite: true,
 		Src: c09hdrSrc("") + `func main() {
 	for i := 1; i <= 3; i++ {
 		go func(id int) {
@@ -1016,7 +1023,9 @@ func main() {
 			case "literal":
 				body = fmt.Sprintf("func main() {\n\t%s\n\tf := func() {\n\t\t%s\n\t\thost.Tick(99)\n\t}\n\tgo ticker()\n\tf()\n\thost.Tick(97)\n}\n", c.decl, strings.ReplaceAll(c.stmt, "\n\t", "\n\t\t"))
 			}
-			conc("blocked-"+c.name+"-"+w, 2, 36, true, "func ticker() {\n\tfor {\n\t\thost.Tick(9)\n\t}\n}\n\n"+body)
+			conc("blocked-"+c.name+"-"+w, 2, kB, true, "func ticker() {\n\tfor {\n\t\thost.Tick(9)\n\t}\n}\n\n"+body)
+			// the same with a second goroutine that blocks too: cancelled at the standstill
+			conc("standstill-"+c.name+"-"+w, 2, 0, true, "func ticker() {\n\tselect {}\n}\n\n"+body)
 		}
 	}
 	// nothing but blocked goroutines: only the standstill cancellation point
@@ -1055,9 +1064,9 @@ func runC09(args []string) error {
 	sm.RefMismatches = []refMismatch{} // the driver iterates over it
 	// thorough: the whole family again for several derived parameter sets (goroutine counts, buffer
 	// sizes, tick values, recursion depth, which half of the construct grid)
-	reps := 1
+	reps := 2
 	if thorough {
-		reps = 6
+		reps = 10
 	}
 	var tmpls []c09tmpl
 	for rep := 0; rep < reps; rep++ {
@@ -1121,6 +1130,18 @@ func runC09(args []string) error {
 			}
 		}
 		sm.Notes = append(sm.Notes, "worker time by template (top): "+strings.Join(top, ", "))
+		slow := make([]int, 0, len(results))
+		for i := range results {
+			slow = append(slow, i)
+		}
+		sort.Slice(slow, func(a, b int) bool { return results[slow[a]].WallMs > results[slow[b]].WallMs })
+		var sj []string
+		for i, id := range slow {
+			if i < 5 {
+				sj = append(sj, fmt.Sprintf("%s k=%d procs=%d %.0fms", metas[id].t.Name, metas[id].k, metas[id].pr, results[id].WallMs))
+			}
+		}
+		sm.Notes = append(sm.Notes, "slowest jobs: "+strings.Join(sj, ", "))
 	}
 	ids := make([]int, 0, len(results))
 	for i := range results {
